@@ -296,6 +296,9 @@ class Passive(taps.Observer):
         self.reached = set()
         self.sites = set()
         self.fault = None     # label of the injected fault, set by an active driver (coverage cell only, never in keys)
+        self.subject = None   # (object, dtype string, layout name) declared by an active driver: the operand of the current call whose exact
+        #                       dtype and memory layout are the swept dimension; its comparison is recorded under the sub-monitor
+        #                       'rescaled-operand' with those two as cell coordinates (never in keys)
         self._active_inplace = 0
         self._tool = None
         if raise_sites:
@@ -655,6 +658,9 @@ class Passive(taps.Observer):
 
     def _check_input(self, op, s, outcome, ename):
         cell = ("input", op, s.path, s.ocls, outcome)
+        subj = self.subject
+        if subj is not None and s.obj is subj[0]:
+            cell = ("rescaled-operand", op, s.path, subj[1], subj[2], outcome)
         if isinstance(s, _U):
             now = usnap(s.obj)
             if not usnap_eq(s.us, now):
